@@ -268,13 +268,24 @@ pub fn generate(input: TokenStream) -> TokenStream {
     let extras = parser.extras.take();
     // The impl is written over the source lifetime: lifetimes (and type parameters) in the error
     // and extras types are fixed up like those of the variants' fields.
-    let fix_type = |tokens: TokenStream| match syn::parse2::<syn::Type>(tokens.clone()) {
-        Ok(mut ty) => parser.get_associated_type(&mut ty),
-        Err(_) => tokens,
-    };
-    let error_type = fix_type(error_type);
+    let mut fix_type =
+        |tokens: TokenStream, what: &str| match syn::parse2::<syn::Type>(tokens.clone()) {
+            Ok(mut ty) => parser.get_associated_type(&mut ty),
+            // Pasting tokens that are not a type into the impl would make the whole output
+            // (including the other diagnostics) unparsable.
+            Err(err) => {
+                let hint =
+                    "\nA type that contains a comma has to be put in parentheses: (HashMap<A, B>)";
+                parser.err(
+                    format!("Not a valid {what} type: {err}{hint}"),
+                    tokens.span(),
+                );
+                quote!(())
+            }
+        };
+    let error_type = fix_type(error_type, "error");
     let extras = match extras {
-        MaybeVoid::Some(tokens) => MaybeVoid::Some(fix_type(tokens)),
+        MaybeVoid::Some(tokens) => MaybeVoid::Some(fix_type(tokens, "extras")),
         MaybeVoid::Void => MaybeVoid::Void,
     };
     let non_utf8_pats = pats
